@@ -22,7 +22,9 @@ RULE = (
     "callback (built-ins are checked by identity: machine is sm, event == the event being processed ...). Second family: two callables with the "
     "same __name__/__qualname__ and the same parameter names but different kinds / async-ness / partial application defined in unrelated "
     "classes, used alternately. non-trivial = call with more positionals than positional parameters, or a reserved-name keyword, or a "
-    "keyword-only / positional-only parameter, or a forwarded call, or a colliding-name pair"
+    "keyword-only / positional-only parameter, or a forwarded call, or a colliding-name pair. Third family (round 6): one event with 2-4 candidate transitions to different "
+    "targets whose earlier guards reject; every guard and the executed candidate's action (before/on/after/exit/enter/on_transition, sync or coroutine) must receive the "
+    "source/target/transition/event_data of its own candidate, with and without user and reserved-name keyword arguments; non-trivial = an earlier candidate was rejected"
 )
 ASSUMPTIONS = [
     "a keyword equal to a positional-only parameter that no positional argument fills is not generated (the library raises TypeError on purpose; pinned by its tests)",
@@ -261,6 +263,8 @@ def run_case(case):
             if bad:
                 return outcome(False, bad[0], bad[1], labels=labels)
             return outcome(True, nontrivial=nt, labels=labels, stats=stats)
+        if case["kind"] == "candidates":
+            return run_candidates(case, uid)
         # colliding names: same function name, same qualname, same parameter names, different kinds
         qual = f"Coll{uid}"
         machines = []
@@ -276,6 +280,97 @@ def run_case(case):
                 if bad:
                     return outcome(False, bad[0] + "-colliding-names", f"variant {var['cbkind']} (another callable shares its qualname and parameter names): {bad[1]}", labels={"colliding-names"})
         return outcome(True, nontrivial=True, labels={"colliding-names"} | {"kind:" + v["cbkind"] for v in case["variants"]}, stats=total)
+
+
+def run_candidates(case, uid):
+    """Second occurrence of "the built-in names always describe the event being processed": one event with several candidate
+    transitions leaving the same state for *different* targets, the earlier candidates rejected by their guards.  Every guard
+    and every action must receive the source / target / transition / event_data of the candidate it belongs to, with and
+    without user keyword arguments (added after round 6, C07k)."""
+    k = case["n"]
+    is_async = case["async"]
+    rec = []
+    ns = {"s": State(initial=True)}
+    for i in range(k):
+        ns[f"t{i}"] = State()
+    go = None
+    for i in range(k):
+        kw = {} if (i == k - 1 and case["last_unguarded"]) else {"cond": f"g{i}"}
+        tr = ns["s"].to(ns[f"t{i}"], **kw)
+        go = tr if go is None else (go | tr)
+    ns["go"] = go
+    back = None
+    for i in range(k):
+        tr = ns[f"t{i}"].to(ns["s"])
+        back = tr if back is None else (back | tr)
+    ns["back"] = back
+
+    def mk_guard(i):
+        def g(self, source, target, transition, event_data, a=None, **kw):
+            rec.append(("guard", i, source.id, target.id, transition.target.id, event_data.target.id, event_data.transition is transition, a, sorted(kw)))
+            return self.G[i]
+        g.__name__ = g.__qualname__ = f"g{i}"
+        return g
+
+    def action(self, source, target, state, transition, event_data, event, machine, model, a=None, **kw):
+        rec.append(("action", source.id, target.id, state.id, transition.source.id, transition.target.id, event_data.target.id, event_data.transition is transition,
+                    str(event), machine is self, model is self.model, a, sorted(kw)))
+
+    async def action_async(self, source, target, state, transition, event_data, event, machine, model, a=None, **kw):
+        action(self, source, target, state, transition, event_data, event, machine, model, a=a, **kw)
+
+    for i in range(k):
+        ns[f"g{i}"] = mk_guard(i)
+    cbname = {"before": "before_go", "on": "on_go", "after": "after_go", "exit": "on_exit_s", "enter": "on_enter_state", "generic": "on_transition"}[case["group"]]
+    ns[cbname] = action_async if is_async else action
+    cls = types.new_class(f"Cand{uid}", (StateMachine,), {}, lambda d: d.update(ns))
+    sm = cls(allow_event_without_transition=True)
+    sm.G = [False] * k
+    if is_async:
+        sm.activate_initial_state()
+    labels = {"candidates", "candidates:" + case["group"]}
+    nt = False
+    n_calls = 0
+    for call in case["calls"]:
+        G = list(call["G"])[:k] + [False] * (k - len(call["G"]))
+        sm.G = G
+        kwargs = dict(call["kwargs"])
+        if sm.current_state.id != "s":
+            sm.back()
+        rec.clear()
+        sm.go(*call["args"], **kwargs)
+        chosen = next((i for i in range(k) if G[i] or (i == k - 1 and case["last_unguarded"])), None)
+        a = kwargs.get("a")
+        extra = sorted(x for x in kwargs if x not in BUILTINS and x != "a")
+        n_guards = k if chosen is None else chosen + 1
+        if case["last_unguarded"] and chosen == k - 1:
+            n_guards = k - 1
+        gextra = sorted(extra + ["event", "machine", "model", "state"])  # **kw takes the built-ins the guard does not name
+        want = [("guard", i, "s", f"t{i}", f"t{i}", f"t{i}", True, a, gextra) for i in range(n_guards)]
+        desc = f"{k} candidate transitions s->t0..t{k-1} of one event, guards {G}{' (last unguarded)' if case['last_unguarded'] else ''}, sent with args={tuple(call['args'])!r} kwargs={kwargs!r}"
+        got_guards = [r for r in rec if r[0] == "guard"]
+        if got_guards != want:
+            return outcome(False, "C07:wrong-binding-candidate", f"{desc}: guards received (kind, i, source, target, transition.target, event_data.target, same transition, a, **kw) = {got_guards!r}, expected {want!r}", labels=labels)
+        got_actions = [r for r in rec if r[0] == "action"]
+        if chosen is None:
+            if got_actions:
+                return outcome(False, "C07:called-more-than-once", f"{desc}: no candidate is enabled but the action ran: {got_actions!r}", labels=labels)
+            continue
+        tgt = f"t{chosen}"
+        if len(got_actions) != 1:
+            return outcome(False, "C07:not-called" if not got_actions else "C07:called-more-than-once", f"{desc}: the {case['group']} callback ran {len(got_actions)} times", labels=labels)
+        r = got_actions[0]
+        ok = r[1] == "s" and r[2] == tgt and r[3] in ("s", tgt) and r[4] == "s" and r[5] == tgt and r[6] == tgt and r[7] is True and r[8] == "go" and r[9] and r[10] and r[11] == a and r[12] == extra
+        if not ok or sm.current_state.id != tgt:
+            return outcome(False, "C07:wrong-binding-candidate", f"{desc}: candidate {chosen} (target {tgt}) was executed (state now {sm.current_state.id}); its {case['group']} callback received "
+                           f"(source, target, state, transition.source, transition.target, event_data.target, same transition, event, machine ok, model ok, a, **kw) = {r[1:]!r}", labels=labels)
+        n_calls += 1
+        if chosen > 0:
+            nt = True
+            labels.add("earlier-candidate-rejected")
+            if kwargs:
+                labels.add("earlier-candidate-rejected+user-kwargs")
+    return outcome(True, nontrivial=nt, labels=labels, stats={"bindings": n_calls, "typeerrors": 0, "excluded": 0})
 
 
 # ------------------------------------------------------------------------------------------ strategies
@@ -315,6 +410,12 @@ def cases(draw, tier):
         kinds = draw(st.lists(st.sampled_from(["method", "async-method", "function", "partial", "wrapped", "wrapped"]), min_size=2, max_size=3))
         variants = [{"sig": draw(signature(names=names)), "cbkind": k, "prov": draw(st.sampled_from(["machine", "model", "listener"]))} for k in kinds]
         return {"kind": "collide", "variants": variants, "calls": [draw(call_shape(forwarded_ok=False)) for _ in range(4)]}
+    if draw(st.integers(0, 11)) == 0:
+        k = draw(st.integers(2, 4))
+        calls = [{"G": [draw(st.booleans()) for _ in range(k)], "args": [f"p{i}" for i in range(draw(st.integers(0, 2)))],
+                  "kwargs": {n: f"kw_{n}" for n in draw(st.lists(st.sampled_from(["a", "b", "x", "target", "source", "transition"]), max_size=3, unique=True))}} for _ in range(6)]
+        return {"kind": "candidates", "n": k, "last_unguarded": draw(st.booleans()), "async": draw(st.integers(0, 3)) == 0,
+                "group": draw(st.sampled_from(["before", "on", "after", "exit", "enter", "generic"])), "calls": calls}
     cbkind = draw(st.sampled_from(["method", "method", "method", "function", "partial", "async-method", "async-function", "wrapped"]))
     group = draw(st.sampled_from(["on", "on", "before", "after", "enter", "exit", "validators", "cond", "cond-not", "cond-and", "cond-or", "unless-name"]))
     if group in ("cond-not", "cond-and", "cond-or", "unless-name"):
